@@ -99,9 +99,6 @@ def monitor(ctx, st):
     if A.error:
         ctx.violate({"kind": "manifest-unreadable"}, A.error)
         return
-    if A.root_or_ancestor_matches:
-        ctx.probe("root_matches_pattern_na")
-        return
     w = st.world
     desc = f"{A.argv} (exit {A.exit})"
     rel = lambda p: os.path.relpath(p, w.root)
@@ -230,6 +227,7 @@ def _fault_phase(ctx, w, op):
         ctx.evaluations += 1
     # faults
     touched = []
+    created_dirs = []
     for i in range(op["n"]):
         r = core.h64(op["seed"], i)
         kind = r % 4
@@ -256,6 +254,8 @@ def _fault_phase(ctx, w, op):
             elif "*" not in pat and "?" not in pat:
                 name = "newdir_%d/%s" % (r % 7, pat)
             if name:
+                if not os.path.isdir(os.path.dirname(os.path.join(w.root, name))):
+                    created_dirs.append(name)
                 if w.apply_env({"op": "write", "path": name, "c": {"gen": [r, 9]}, "fault": "add_ignored_file"}):
                     touched.append(os.path.join(w.root, name))
                     # a brand-new parent directory is itself not ignored; only count the file as ignored
@@ -268,7 +268,7 @@ def _fault_phase(ctx, w, op):
         ctx.probe("fault_phase_nothing_fired")
         return
     ctx.nontrivial = True
-    newdirs = any("newdir_" in t for t in touched)
+    newdirs = bool(created_dirs)
     for argv, b in zip(cmds, base):
         r = w.run_cmd(argv)
         ctx.evaluations += 1
